@@ -197,19 +197,21 @@ def run_ladders(idxs):
                 ctx.db_conn.commit()
                 ctx.start_page("Pg")
                 exc = out = None
-                signal.signal(signal.SIGALRM, ex._alarm)
-                signal.alarm(int(6 * TIME_BOUND))
+                stopped = False
+                # the bound is on CPU time (the machine may be loaded): a profiling timer stops a run that exceeds it
+                signal.signal(signal.SIGPROF, ex._alarm)
+                signal.setitimer(signal.ITIMER_PROF, TIME_BOUND + 5)
                 t0, c0 = time.time(), time.process_time()
                 try:
                     out = ctx.expand(texts[0])
                 except ex.HardLimit:
-                    c0 -= 100 * TIME_BOUND  # reported as far beyond the time bound
+                    stopped = True
                     out = ""
                 except Exception as e:  # noqa: BLE001
                     exc = repr(e)[:200]
                 finally:
-                    signal.alarm(0)
-                res.append({"idx": idx, "src": texts[0], "out": out, "nout": ex.norm_out(out) if isinstance(out, str) else None, "exc": exc,
+                    signal.setitimer(signal.ITIMER_PROF, 0)
+                res.append({"idx": idx, "src": texts[0], "out": out, "nout": ex.norm_out(out) if isinstance(out, str) else None, "exc": exc, "stopped": stopped,
                             "wall": time.time() - t0, "cpu": time.process_time() - c0, "msgs": ex.msg_summary(ctx)})
             finally:
                 if own or exc is not None or out == "":
@@ -237,8 +239,9 @@ def judge_ladder(o: Outcome, c, ob):
     if not isinstance(ob["out"], str):
         o.violation(case, "expand() did not return a string", cls="type")
         return
-    if ob["cpu"] > TIME_BOUND:
-        o.violation(case, f"expand() needed {ob['cpu']:.1f}s CPU (> {TIME_BOUND}s) on the nesting ladder [{name}] ({len(ob['src'])} characters)", cls="time")
+    if ob["stopped"] or ob["cpu"] > TIME_BOUND:
+        o.violation(case, (f"expand() had not returned after {ob['cpu']:.1f}s of CPU time" if ob["stopped"] else f"expand() needed {ob['cpu']:.1f}s of CPU time")
+                    + f" (bound {TIME_BOUND}s) on the nesting ladder [{name}] ({len(ob['src'])} characters of page text)", cls="time")
         return
     real_cut = "<ERR:depth>" in ob["nout"]
     real_msg = any(s == "core/1115" for _, s in ob["msgs"])
